@@ -75,3 +75,18 @@ META["C16"] = dict(
     text="Theorems C16_pairing, C16_series_labels, C16_no_mixing, C16_counts, C16_setup_failure, C16_disabled: for every static-label map the label names/values of every series pair each key with its own value; after any earlier runs the metrics are those of the last run alone; the iteration family holds per result label exactly the recorded number of samples and the setup family one sample labelled with the setup outcome; nothing is recorded for iterations when iteration metrics are off. Gather() of the real registry is compared exactly with the model.",
     note="Trusted: Coq kernel; Prometheus SummaryVec semantics (WithLabelValues positional pairing, Reset, Observe) as modelled; extraction + driver; harness.",
 )
+
+META["C14"] = dict(
+    design_ref="DESIGN.md section 5, C14",
+    technique="Coq proofs over executable ports of ParseRate/ParseStages/Calculate*Rate validation/ParseConfigFile (on the decoded value): totality (no Crash outcome), well-formedness, and an iff between acceptance and a three-form reference grammar; exact outcome/value differential on grammar-based and near-miss inputs, constructor tuples and generated config ASTs; library ports (ParseDuration, Atoi) compared primitive by primitive; malformed byte stream for crash-freedom",
+    text="Theorems C14_rate_total, C14_rate_wf, C14_rate_means, C14_constructors_runnable, C14_config, C14_config_total: ParseRate never crashes, accepts exactly N | N/<duration> | N/<unit> with a positive unit and returns (N, that unit); every constructor and every accepted config yields positive tick intervals / at least one user and at least one worker; the config parser has no crashing outcome for any combination of present and absent fields. "
+         "C14_pinned_refuted machine-checks the three pinned ParseRate defects. Eight fix: commits repaired the input families that crashed or were accepted but could not run.",
+    note="Trusted: Coq kernel (+ axioms carried by Flocq definitions through ParseDuration's fraction arithmetic); the statements start at strings and at the decoded config value: gopkg.in/yaml.v3, cobra/pflag and strconv.ParseFloat (weights) are library code, exercised but not modelled; TrimSpace modelled for ASCII; extraction + driver; harness.",
+)
+
+META["C15"] = dict(
+    design_ref="DESIGN.md section 5, C15",
+    technique="Coq proofs by induction over the stage list of the ParseConfigFile model (kept = those with scheduled end after now, in order; suffix lemma; total = sum of all; field-wise default merge; one-to-one limits); exact plan differential on generated configs x restart instants; oracle predicate on real file-triggered runs for sequencing and environment hand-over",
+    text="Theorems C15_kept, C15_defaults, C15_suffix: for every accepted config the plan holds, in file order, exactly the stages with stage-start + cumulative duration after now (all when no stage-start; a suffix for non-negative durations), the total is the sum of all stage durations, limits map one-to-one, and a stage is parsed from the field-wise merge of its own and the default section. Run-time sequencing and environment set/unset are observed on real runs (predicate c15_run_ok), not proved.",
+    note="Trusted: Coq kernel; YAML decoding not modelled; the run-time half (sequential stages, env present during / absent after) is exploration-level evidence inside this check; extraction + driver; harness.",
+)
